@@ -614,6 +614,22 @@ def ill_groups():
         "import f;\nfn f() {}", "import pkg.f;\nfn f() {}", "import pkg.g;", "import super.f;", "import a.b;", "import Option.Some;\nfn Some() {}",
         "import Option.Some;\nimport Option.Some;", "import Option.{Some, None};\nenum E { Some, None }",
         "import pkg.A;\nconst A: i32 = 1;", "import pkg.pkg;", "import pkg;", "import dep.x.y;", "import i32.MAX;\nconst MAX: i32 = 1;"]))
+    # 7 constants of every kind of type x every use-site form (field / nested field / method / match / index / ? /
+    #   iteration / argument / f-string / comparison / assignment / other constants' initialisers)
+    cdecl = "record R { a: i32, s: String, n: { b: String, c: u8 } }\nenum E { V(i32), W }\nfn g(a: i32) -> i32 { a }\n"
+    consts = [("i32", "1"), ("String", '"s"'), ("{ a: i32 }", "{ a: 1 }"), ("{ a: { b: String } }", '{ a: { b: "s" } }'),
+              ("R", 'R { a: 1, s: "x", n: { b: "y", c: 2 } }'), ("E", "E.V(1)"), ("i32?", "Option.Some(1)"), ("String?", 'Option.Some("s")'),
+              ("List[i32]", "[1, 2]"), ("List[{ a: i32 }]", "[{ a: 1 }]"), ("List[String]", '["a"]'), ("Verdict[i32, String]", "Verdict.Accept(1)"),
+              ("()", "()"), ("IpAddr", "1.2.3.4"), ("Prefix", "1.2.3.0/24"), ("f64", "1.5"), ("char", "'c'"), ("bool", "true"),
+              ("{ a: i32? }", "{ a: Option.Some(1) }"), ("{ a: List[String] }", '{ a: ["s"] }'), ("StringBuf", "StringBuf.new()")]
+    uses = ["C", "C.a", "C.a.b", "C.s", "C.n.b", "C.n.c", "C.a.len()", "C.len()", "C == C", "C.a == C.a", "match C { _ => 1 }",
+            "match C { Some(v) => 1, None => 0 }", "match C { V(x) => x, W => 0 }", 'f"{C}"', 'f"{C.a}"', "C.a = 2", "C = C", "C?", "C.a?",
+            "for x in C { }", "for x in C.a { }", "let v = C; v", "let v = C.a; v", "g(C)", "g(C.a)", "-C", "!C", "[C, C]", "[C.a]",
+            "{ z: C }", "{ z: C.a }", "C.to_string()", "C.a.to_string()", "if C == C { 1 } else { 2 }", "C.a + C.a", "C.nope", "C.a.nope",
+            "C.get(0)", "C.push(3)", "C.a.push(\"t\")", "C.len", "C.0", "C.a.0", "C()", "C.a()", "let v = C; v.a = 5; C.a"]
+    g.append(("const_uses", [cdecl + "const C: %s = %s;\nfn f() { let r = %s; }" % (t, l, u) for t, l in consts for u in uses]))
+    g.append(("const_from_const", [cdecl + "const C: %s = %s;\nconst D: i32 = %s;\nfn f() -> i32 { D }" % (t, l, u)
+                                   for t, l in consts for u in ["C.a", "C.n.c", "C.a.b.len()", "g(C.a)", "match C { _ => 1 }", "C.len()"]]))
     return g
 
 
